@@ -80,35 +80,52 @@ def worker(task: Tuple[Any, ...]) -> Stats:
     st = Stats()
     for hist in tree.level(root, depth):
         # dev == "dust": every amount x 1e-6, so that transfer fees are worth a fraction of a cent - they leave the account all the same
-        specs = H.materialize(hist, row_order=row_order, scale="1/1000000" if _dev == "dust" else 1)
-        if specs is None:
-            continue
-        verdict, _acct, _dip = MA.overdraft_verdict(specs)
-        tds = to_dates(specs)
-        touched = len({a for s in specs for a, _k, _v in MA.flows(s)})
-        for sch in schedules:
-            for neg in (False, True):
-                if not neg and verdict != "must_accept":
-                    continue  # rejected (or may be rejected) without -n: C08's business
-                for td in tds:
-                    st.inc("evaluations")
-                    st.inc(f"evaluations_depth_{len(hist)}")
-                    out = C.run_window(specs, sch, None, td, allow_negative_balances=neg)
-                    base = {"history": H.hist_str(hist), "hist": hist, "specs": specs, "schedule": list(sch), "allow_negative": neg,
-                            "to_date": str(td) if td else None}
-                    if not out.ok:
-                        st.violation(dict(base, signature=f"C07 valid history rejected / {type(out.error).__name__}",
-                                          what=f"{sched_str(sch)}{' -n' if neg else ''} -t {td}: {H.hist_str(hist)} :: {type(out.error).__name__}: {out.error}"))
-                        continue
-                    problems = check_balances(specs, out.computed, td)
-                    if touched >= 2:
-                        st.inc("distinct_nontrivial")
-                    if problems:
-                        st.violation(dict(base, signature=f"C07 balances / {problems[0].split(':')[-1].strip().split(' ')[0] if 'account' in problems[0] else problems[0][:30]}",
-                                          what=f"{sched_str(sch)}{' -n' if neg else ''} -t {td}: {H.hist_str(hist)} :: {problems[0]}", problems=problems))
-                    elif touched >= 3 and td is None:
-                        st.sample({"history": H.hist_str(hist), "schedule": sched_str(sch), "allow_negative": neg,
-                                   "balances": {f"{b.exchange}/{b.holder}": str(b.final_balance) for b in out.computed.balance_set}}, cap=1)
+        variants = [(hist, H.materialize(hist, row_order=row_order, scale="1/1000000" if _dev == "dust" else 1))]
+        if _dev == "tz":
+            # every timestamp written at -05:00 (instants from 02:00 UTC: own date = the day before the UTC date) / at +09:00 (from 18:00 UTC:
+            # own date = the day after): "up to the to-date" is decided by the own calendar date
+            from datetime import datetime, timezone
+
+            variants = []
+            for tz in (-300, 540):
+                h2 = tuple((it[0], it[1], tz) for it in hist)
+                variants.append((h2, H.materialize(h2, row_order=row_order, base=datetime(2020, 3, 1, 18 if tz > 0 else 2, 0, 0, tzinfo=timezone.utc))))
+        for h2, specs in variants:
+            if specs is not None:
+                st.merge(judge_history(h2, specs, schedules))
+    return st
+
+
+def judge_history(hist: History, specs: List[Dict[str, Any]], schedules: Sequence[Any]) -> Stats:
+    from rp2verif.seams import compute as C
+
+    st = Stats()
+    verdict, _acct, _dip = MA.overdraft_verdict(specs)
+    tds = to_dates(specs)
+    touched = len({a for s in specs for a, _k, _v in MA.flows(s)})
+    for sch in schedules:
+        for neg in (False, True):
+            if not neg and verdict != "must_accept":
+                continue  # rejected (or may be rejected) without -n: C08's business
+            for td in tds:
+                st.inc("evaluations")
+                st.inc(f"evaluations_depth_{len(hist)}")
+                out = C.run_window(specs, sch, None, td, allow_negative_balances=neg)
+                base = {"history": H.hist_str(hist), "hist": hist, "specs": specs, "schedule": list(sch), "allow_negative": neg,
+                        "to_date": str(td) if td else None}
+                if not out.ok:
+                    st.violation(dict(base, signature=f"C07 valid history rejected / {type(out.error).__name__}",
+                                      what=f"{sched_str(sch)}{' -n' if neg else ''} -t {td}: {H.hist_str(hist)} :: {type(out.error).__name__}: {out.error}"))
+                    continue
+                problems = check_balances(specs, out.computed, td)
+                if touched >= 2:
+                    st.inc("distinct_nontrivial")
+                if problems:
+                    st.violation(dict(base, signature=f"C07 balances / {problems[0].split(':')[-1].strip().split(' ')[0] if 'account' in problems[0] else problems[0][:30]}",
+                                      what=f"{sched_str(sch)}{' -n' if neg else ''} -t {td}: {H.hist_str(hist)} :: {problems[0]}", problems=problems))
+                elif touched >= 3 and td is None:
+                    st.sample({"history": H.hist_str(hist), "schedule": sched_str(sch), "allow_negative": neg,
+                               "balances": {f"{b.exchange}/{b.holder}": str(b.final_balance) for b in out.computed.balance_set}}, cap=1)
     return st
 
 
@@ -208,9 +225,11 @@ def plan(tier: str) -> List[Dict[str, Any]]:
     if tier == "quick":
         return [{"name": "3 accounts", "schedules": [((1970, "fifo"),), ((1970, "hifo"),)], "steps": STEPS, "depth": 3, "dev": 0, "group": 1},
                 {"name": "3 accounts, lifo (depth 2)", "schedules": [((1970, "lifo"),)], "steps": STEPS, "depth": 2, "dev": 0, "group": 1},
-                {"name": "3 accounts, dust-sized amounts (x 1e-6)", "schedules": [((1970, "fifo"),)], "steps": ("d",), "depth": 3, "dev": "dust", "group": 1}]
+                {"name": "3 accounts, dust-sized amounts (x 1e-6)", "schedules": [((1970, "fifo"),)], "steps": ("d",), "depth": 3, "dev": "dust", "group": 1},
+                {"name": "3 accounts, every timestamp at -05:00 / +09:00 (own date != UTC date)", "schedules": [((1970, "fifo"),)], "steps": ("d",), "depth": 3, "dev": "tz", "group": 1}]
     return [{"name": "3 accounts", "schedules": [((1970, "fifo"),), ((1970, "hifo"),)], "steps": STEPS, "depth": 3, "dev": 0, "group": 1},
             {"name": "3 accounts, dust-sized amounts (x 1e-6)", "schedules": [((1970, "fifo"),), ((1970, "hifo"),)], "steps": STEPS, "depth": 3, "dev": "dust", "group": 1},
+            {"name": "3 accounts, every timestamp at -05:00 / +09:00 (own date != UTC date)", "schedules": [((1970, "fifo"),), ((1970, "hifo"),)], "steps": STEPS, "depth": 3, "dev": "tz", "group": 1},
             {"name": "3 accounts, depth 4", "schedules": [((1970, "fifo"),)], "steps": STEPS, "depth": 4, "dev": 0, "group": 1, "from_depth": 4}]
 
 
